@@ -74,6 +74,12 @@ func typeKey(t types.Type) string {
 	case *types.Alias:
 		return typeKey(types.Unalias(u))
 	case *types.Basic:
+		switch u.Kind() {
+		case types.Uint8:
+			return "uint8"
+		case types.Int32:
+			return "int32"
+		}
 		return u.Name()
 	case *types.Pointer:
 		return "*" + typeKey(u.Elem())
